@@ -550,6 +550,7 @@ def run_c07(ctx, replay_path=None):
 THEOREMS = [
     "BluetoeModel.AttWriteQueue.reachable_inv",
     "BluetoeModel.AttWriteQueue.queue_tracks_history",
+    "BluetoeModel.AttWriteQueue.queue_iteration_in_bounds",
     "BluetoeModel.AttWriteQueue.prepare_no_effect",
     "BluetoeModel.AttWriteQueue.execute_applies_in_order",
     "BluetoeModel.AttWriteQueue.cancel_discards",
@@ -566,6 +567,16 @@ PROPS = {
         level="proof",
         technique="Lean 4 invariant + history proof over a model of write_queue.hpp and the Prepare/Execute Write handlers "
                   "(with fix attwq-01 applied) + differential correspondence with real server<shared_write_queue<S>> types",
+        level_text="Theorems queue_tracks_history / reachable_inv: for every server declaration with a 16-bit queue size and every "
+                   "interleaving of requests, security changes and disconnects of all connections, the byte queue of the model of "
+                   "write_queue.hpp decodes to exactly the prepared writes accepted for its owner since the last release, in order; "
+                   "execute_applies_in_order: Execute Write applies that list front to back; prepare_no_effect, cancel_discards, "
+                   "released_after, other_client_queue_full and the full strength prepare_iff_write_permitted hold for every state. "
+                   "The model (with fix attwq-01) is tied to the code by differential runs on six real server types and an "
+                   "independent Python oracle; small scopes are enumerated exhaustively in the thorough tier.",
+        level_note="Trusted: Lean kernel + propext/Quot.sound/Classical.choice; model = code only as far as the differential check "
+                   "samples it; bound values and CCCDs only (no user handlers), servers without handle gaps; no theorem that the "
+                   "model's out-of-bounds results of value / configuration accesses are unreachable (ASan side: no hit).",
         design_ref="§5 C07",
         assumptions=["servers without fixed handles (handle = attribute index + 1)",
                      "bound characteristic values and CCCDs (user read/write handlers are not modelled)",
